@@ -1,3 +1,5 @@
+//go:build !verif
+
 /*
  * Atree - Scalable Arrays and Ordered Maps
  *
@@ -18,25 +20,5 @@
 
 package atree
 
-import (
-	"bytes"
-	"sync"
-)
-
-var bufferPool = sync.Pool{
-	New: func() any {
-		e := new(bytes.Buffer)
-		e.Grow(int(maxThreshold))
-		return e
-	},
-}
-
-func getBuffer() *bytes.Buffer {
-	return bufferPool.Get().(*bytes.Buffer)
-}
-
-func putBuffer(e *bytes.Buffer) {
-	verifEvent("buffer.put", e)
-	e.Reset()
-	bufferPool.Put(e)
-}
+// verifEvent is a no-op unless built with the "verif" tag.
+func verifEvent(string, any) {}
